@@ -76,17 +76,26 @@ pub struct Pair {
     pub lang: &'static str,
     pub locale: &'static str,
     pub model: Model<'static>,
+    pub always_evaluate: bool,
     inputs: usize,
 }
 
 impl Pair {
     pub fn new(lang: &'static str, locale: &'static str) -> Pair {
-        Pair { lang, locale, model: Model::new_empty("c18", locale, "UTC", lang).expect("model"), inputs: 0 }
+        Pair {
+            lang,
+            locale,
+            model: Model::new_empty("c18", locale, "UTC", lang).expect("model"),
+            always_evaluate: false,
+            inputs: 0,
+        }
     }
     fn reset_if_big(&mut self) {
         self.inputs += 1;
         if self.inputs > 20_000 {
+            let ae = self.always_evaluate;
             *self = Pair::new(self.lang, self.locale);
+            self.always_evaluate = ae;
         }
     }
     fn clear(&mut self) {
@@ -98,8 +107,13 @@ impl Pair {
         let m = &mut self.model;
         let mut kind = cell_kind(m, 0, 1, 1);
         if kind == Kind::Formula {
-            m.evaluate();
-            kind = cell_kind(m, 0, 1, 1);
+            // a formula over whole rows or columns (`=+1:5`, `=+E:E`) spills up to a million cells: enumerated
+            // inputs with a range operator are not evaluated (only text, kind and style are compared)
+            let text = m.get_localized_cell_content(0, 1, 1).unwrap_or_default();
+            if self.always_evaluate || !has_row_range(&text) {
+                m.evaluate();
+                kind = cell_kind(m, 0, 1, 1);
+            }
         }
         let v = m.get_cell_value_by_index(0, 1, 1);
         let (value, number) = match &v {
@@ -117,6 +131,11 @@ impl Pair {
             style: m.get_style_for_cell(0, 1, 1).unwrap_or_default(),
         }
     }
+}
+
+/// A range operator in the text: whole rows or columns (`=+1:5`, `=+E:E`) spill up to a million cells.
+fn has_row_range(text: &str) -> bool {
+    text.contains(':')
 }
 
 fn kind_class(k: &Kind) -> String {
@@ -197,7 +216,10 @@ fn compare(lang: &str, c1: &CellObs, c2: &CellObs) -> Option<(String, String)> {
     }
     let cur = ["$", "€", "£"];
     let first = match &c1.kind {
+        Kind::Number(x) if !x.is_finite() => "number/non-finite".to_string(),
         Kind::Number(_) => format!("number/{}", fmt_kind(&c1.style.num_fmt, &cur).name()),
+        Kind::Formula if c1.content.contains("#REF!") => "formula/with-#REF!".to_string(),
+        Kind::Formula if c1.content.contains(':') => "formula/with-range-operator".to_string(),
         k => kind_class(k),
     };
     // the display of booleans and errors depends on the language: name it in the signature
@@ -219,6 +241,15 @@ pub struct Outcome {
 
 /// x typed -> cell1; its displayed content typed into the same cell -> cell2.
 pub fn check_input(p: &mut Pair, x: &str, family: &str) -> Outcome {
+    let t0 = std::time::Instant::now();
+    let o = check_input_inner(p, x, family);
+    if std::env::var("VERIF_C18_SLOW").is_ok() && t0.elapsed().as_millis() > 20 {
+        eprintln!("slow: {} ms [{}/{}] `{}`", t0.elapsed().as_millis(), p.lang, p.locale, x);
+    }
+    o
+}
+
+fn check_input_inner(p: &mut Pair, x: &str, family: &str) -> Outcome {
     p.reset_if_big();
     let case = json!({"lang": p.lang, "locale": p.locale, "input": x, "family": family});
     let (lang, locale) = (p.lang, p.locale);
@@ -268,18 +299,26 @@ pub fn check_input(p: &mut Pair, x: &str, family: &str) -> Outcome {
 /// content is typed back.
 pub fn check_corpus(lang: &'static str, locale: &'static str, formula: &str) -> Outcome {
     let case = json!({"lang": lang, "locale": locale, "input": formula, "family": "corpus"});
+    let mut shown = String::new();
     let r = crate::env::guarded(|| {
-        let mut p = Pair::new("en", "en");
+        // the formula as the target language/locale displays it
+        let mut e = Pair::new("en", "en");
+        if e.model.set_user_input(0, 1, 1, formula.to_string()).is_err() {
+            return None;
+        }
+        if e.model.set_locale(locale).is_err() || e.model.set_language(lang).is_err() {
+            return None;
+        }
+        let x = e.model.get_localized_cell_content(0, 1, 1).ok()?;
+        shown = x.clone();
+        // typed by a user of that language/locale
+        let mut p = Pair::new(lang, locale);
+        p.always_evaluate = true;
         let _ = p.model.set_user_input(0, 2, 1, "3".to_string());
         let _ = p.model.set_user_input(0, 2, 2, "4".to_string());
-        if p.model.set_user_input(0, 1, 1, formula.to_string()).is_err() {
+        if p.model.set_user_input(0, 1, 1, x).is_err() {
             return None;
         }
-        if p.model.set_locale(locale).is_err() || p.model.set_language(lang).is_err() {
-            return None;
-        }
-        p.lang = lang;
-        p.locale = locale;
         let c1 = p.observe();
         if p.model.set_user_input(0, 1, 1, c1.content.clone()).is_err() {
             let c2 = CellObs { content: "<input rejected>".into(), ..c1.clone() };
@@ -295,8 +334,8 @@ pub fn check_corpus(lang: &'static str, locale: &'static str, formula: &str) -> 
                 sig: format!("corpus {}", sig),
                 case,
                 detail: format!(
-                    "[{}/{}] the English formula `{}` shows `{}`; typing that back: {}",
-                    lang, locale, formula, c1.content, detail
+                    "[{}/{}] the English formula `{}` reads `{}` here; typed, it shows `{}`; typing that back: {}",
+                    lang, locale, formula, shown, c1.content, detail
                 ),
             });
             Outcome { d, first: Some(c1), changed_text: true }
@@ -412,9 +451,11 @@ pub fn run(run: &mut Run) {
                     t.take(check_input(&mut p, s, "formula-ish"));
                 });
             }
+            p.always_evaluate = true;
             for s in LOOKALIKES {
                 t.take(check_input(&mut p, s, "look-alike"));
             }
+            p.always_evaluate = false;
             for s in &names {
                 t.take(check_input(&mut p, s, "names"));
             }
@@ -472,8 +513,9 @@ pub fn run(run: &mut Run) {
     run.exhaustive = true;
     run.assume("each input is typed into an empty, unformatted cell A1 of a fresh sheet; the displayed content is typed back into that same cell without clearing it");
     run.assume("compared: get_localized_cell_content, the stored cell kind (number/boolean/error/text/formula) with its payload, the resolved Style (all fields); numbers and formula results to 15 significant digits; formula cells are evaluated before reading");
+    run.assume("enumerated inputs that become formulas with a range operator `:` (e.g. `+1:5`, `+E:E`: whole rows/columns, up to a million spilled cells) are compared by text, kind and style only, without evaluating them; look-alikes and corpus formulas are always evaluated");
     run.assume("links attached by URL/e-mail detection are not part of the comparison (the statement lists content, type, style and value)");
-    run.assume("corpus formulas are typed in English in an en/en model, then the model's locale and language are switched and the displayed text is typed back");
+    run.assume("corpus formulas are translated by the engine (typed in English in an en/en model whose locale and language are then switched); the translated text is the input typed in a fresh model of the target language/locale");
 }
 
 pub fn replay(case: &Value) -> Vec<Disagreement> {
